@@ -247,7 +247,9 @@ def _open(src, knobs, scratch, rng, lazy):
 
     kw = dict(lazy=lazy, recalcBBoxes=knobs.get("recalcBBoxes", True), recalcTimestamp=knobs.get("pin") == "sde")
     kind = knobs.get("source", "bytesio")
-    if kind == "path" or (lazy and kind in ("short",)):
+    if kind == "path" or (lazy and kind in ("short", "simstream")):
+        # lazy=True keeps the file object: fontTools supports BytesIO and named files there
+        # (a nameless custom stream cannot be deep-copied or pickled by SFNTReader)
         p = scratch.path("src-%d.bin" % rng.randrange(1 << 30))
         with open(p, "wb") as f:
             f.write(src)
@@ -663,7 +665,10 @@ def run_reference(src, h, steps, upto, save_params, scratch):
         # bring the loaded set in line (sorted order, plain access)
         for t in st.get("new", []):
             if t in font:
-                font[t]
+                try:
+                    font[t]
+                except Exception:
+                    pass  # the observed replica met (and recorded) the same failure
     try:
         return _do_save(font, dict(save_params, dest="bytesio"), scratch, [1000])
     except Exception as e:
@@ -777,7 +782,7 @@ def exec_hist(ctx, h, src, scratch):
             res["violation"] = {
                 "class": "second-save-differs",
                 "detail": "saving the same object twice gave different output (%s) font=%s tables=%s" % (again if isinstance(again, str) else "bytes", h["font"], diff_tables(again, saves[-1][2]) if isinstance(again, bytes) else ""),
-                "sig": _signature(h, len(h["ops"]), [], steps),
+                "sig": dict(_signature(h, len(h["ops"]), [], steps), first_save_loaded=steps[-1].get("new", [])),
             }
     if res.get("violation"):
         _match_known(ctx, h, res)
